@@ -181,7 +181,7 @@ impl Property for C14 {
                         v.fail("derivative of order >= k is not zero", format!("k={} t={:?} i={} m={} x={:?}: {:e}", k, t, i, m, x, got));
                         return v;
                     }
-                    if (got - exp).abs() > 1e-10 * scale + 1e-300 {
+                    if !((got - exp).abs() <= 1e-10 * scale + 1e-300) {
                         let side = if at_right_end { "left limit at the right end point" } else { "right limit" };
                         v.fail(
                             format!("{} differs from the Cox-de Boor polynomial | {}", if m == 0 { "value" } else { "derivative" }, if at_right_end { "right end" } else if on_interior_knot { "interior knot" } else { "inside a span" }),
@@ -194,7 +194,7 @@ impl Property for C14 {
                     }
                 }
                 let target = if m == 0 { 1.0 } else { 0.0 };
-                if (sum - target).abs() > 1e-11 * sum_scale + 1e-300 {
+                if !((sum - target).abs() <= 1e-11 * sum_scale + 1e-300) {
                     v.fail(
                         if m == 0 { "basis functions do not sum to one" } else { "derivatives of the basis functions do not sum to zero" },
                         format!("k={} t={:?} m={} x={:?}: sum {:e}", k, t, m, x, sum),
